@@ -147,6 +147,8 @@ Print Assumptions C08_secrets_valid_at.
 Print Assumptions C08_enqueue_implies_authenticated.
 Print Assumptions C08_accepted_implies_authenticated.
 Print Assumptions C08_fail_closed.
+Print Assumptions C08_basic_user_in_table.
+Print Assumptions C08_no_route_untouched.
 Print Assumptions C08_basic_failure_401.
 Print Assumptions C08_forward_failure_status.
 Print Assumptions C08_hmac_failure_401.
